@@ -390,6 +390,27 @@ def pretty_replay_violation(F, roots, pout):
     return None
 
 
+def parse_pretty(text):
+    """The pretty-mode output as events: `redo  <indent><name>` starts (or re-enters) a target, `… (resumed)` resumes
+    one, `… (exit N)` / `… (done)` close one; everything else is a plain line."""
+    out = []
+    for l in text.split("\n"):
+        mm = re.match(r"^redo  ( *)(.*)$", l)
+        if mm:
+            body = mm.group(2)
+            m2 = re.match(r"^(.*) \((resumed|done|exit -?\d+|unchanged)\)$", body)
+            if m2:
+                kind = m2.group(2).split()[0]
+                out.append(("m", "resumed" if kind == "resumed" else ("unchanged" if kind == "unchanged" else "done"), m2.group(1)))
+            else:
+                out.append(("m", "do", body))
+        else:
+            out.append(("r", l))
+    if out and out[-1] == ("r", ""):
+        out.pop()
+    return out
+
+
 def attribute(events):
     """Lines per target: a raw line belongs to the target named by the latest do/resumed record."""
     cur = None
@@ -451,9 +472,15 @@ def live_level(ctx, rng, viol):
                 live = attribute(parse_out(err))
                 rc2, out2, err2 = pr.run(["redo-log", "--no-pretty", "--no-color", "--no-status", "-r", "all"])
                 rep = attribute(parse_out(out2))
+                # the same logs once more through the default (pretty) output path
+                rc3, out3, err3 = pr.run(["redo-log", "--no-color", "--no-status", "-r", "all"])
+                prep = attribute(parse_pretty(out3))
+                stats["pretty_replays_of_real_logs"] = stats.get("pretty_replays_of_real_logs", 0) + 1
+                if rc3 != 0:
+                    prep = {}
                 for n in names:
                     stats["lines"] += len(expect[n])
-                    for where, got in (("live output", live), ("redo-log replay", rep)):
+                    for where, got in (("live output", live), ("redo-log replay", rep), ("redo-log replay in pretty mode", prep)):
                         g = [l for l in got.get(n, [])]
                         if rc != 0 or g != expect[n]:
                             scripts = dict((n2, pr.read(n2 + ".do").decode()[:400]) for n2 in names)
@@ -752,6 +779,44 @@ def malformed_done_scenario(ctx, viol):
                 return stats
         finally:
             pr.destroy()
+    return stats
+
+
+def killed_script_scenario(ctx, viol):
+    """A script that is killed by a signal: redo records `done -<signal> <name>` (a NEGATIVE status).  The record must
+    survive the replay and the pretty printer like any other, the lines around it must appear once, and the failure must
+    be shown (`victim (exit -9)`)."""
+    stats = dict(builds=0)
+    pr = Project()
+    try:
+        pr.write("a.do", "echo a-1 >&2\nredo-ifchange victim || echo victim-failed >&2\necho a-2 >&2\necho a\n")
+        pr.write("victim.do", "echo v-1 >&2\nkill -9 $$\necho v-never >&2\n")
+        base = ["--no-color", "--no-status"]
+        rc, out, err = pr.run(["redo", "--no-pretty"] + base + ["a"], timeout=60)
+        rc2, out2, err2 = pr.run(["redo-log", "--no-pretty"] + base + ["-r", "a"], timeout=60)
+        rc3, out3, err3 = pr.run(["redo-log"] + base + ["-r", "a"], timeout=60)
+        stats["builds"] += 1
+        problems = []
+        if rc2 != 0 or rc3 != 0:
+            problems.append("redo-log -r exits %s (raw) / %s (pretty)" % (rc2, rc3))
+        for what, text in (("live output", err), ("redo-log -r", out2)):
+            got = attribute(parse_out(text))
+            if got.get("a") != ["a-1", "victim-failed", "a-2"] or got.get("victim") != ["v-1"]:
+                problems.append("%s: lines under a are %r, under victim %r" % (what, got.get("a"), got.get("victim")))
+            if not any(e[0] == "m" and e[1] == "done" and e[2] == "-9 victim" for e in parse_out(text)):
+                problems.append("%s: no record `done -9 victim`" % what)
+        if "victim (exit -9)" not in out3:
+            problems.append("pretty replay does not show `victim (exit -9)`")
+        for ln in ("a-1", "victim-failed", "a-2", "v-1"):
+            if out3.splitlines().count(ln) != 1:
+                problems.append("pretty replay shows %r %d times" % (ln, out3.splitlines().count(ln)))
+        if problems:
+            m = re.search(r"panicked at [^\n]*\n[^\n]*", err + err2 + err3)
+            p = write_replay("C18", "killed-script", dict(kind="impl-monitor", clause="records (done with exit status) survive formatting and re-parsing; every line exactly once", problems=problems, panic=m.group(0) if m else None,
+                                                          live=err[-1200:], replay=(out2 + err2)[-1200:], pretty_replay=(out3 + err3)[-1200:], scenario="victim.do: echo v-1 >&2; kill -9 $$.  a.do: redo-ifchange victim || echo victim-failed >&2"))
+            viol.append(Violation("C18", p, "a script killed by a signal (done record with a negative status): " + "; ".join(problems[:3])))
+    finally:
+        pr.destroy()
     return stats
 
 
@@ -1216,6 +1281,8 @@ def run(ctx):
         concurrent_reader_scenario(ctx, viol)
     if not viol:
         two_spellings_scenario(ctx, viol)
+    if not viol:
+        killed_script_scenario(ctx, viol)
     if not viol:
         glued_record_scenario(ctx, viol)
     if not viol:
